@@ -487,6 +487,26 @@ Theorem c05_animal_order_irrelevant : forall fl fb l1 l2 rest H W sig s edges e 
 Proof. exact animal_order_irrelevant. Qed.
 Print Assumptions c05_animal_order_irrelevant.
 
+(* the same one level down, for make_multi_pafs itself (no filter): permuting the instances
+   permutes the terms of every cell; an instance whose edge e has a missing endpoint (NaN
+   padding, wherever it stands in the list) contributes no term to edge e *)
+Theorem c05_multi_pafs_order_irrelevant :
+  forall fl xv yv n_edges srcss1 dstss1 srcss2 dstss2 sig e c i j x y,
+  nth_error yv i = Some y -> nth_error xv j = Some x -> (c < 2)%nat -> (e < n_edges)%nat ->
+  Forall (fun sd => (e < length (fst sd))%nat /\ (e < length (snd sd))%nat) (combine srcss1 dstss1) ->
+  Permutation (combine srcss1 dstss1) (combine srcss2 dstss2) ->
+  exists v1 v2,
+    cell4 (make_multi_pafs fl xv yv n_edges srcss1 dstss1 sig) e c i j = Some v1 /\
+    cell4 (make_multi_pafs fl xv yv n_edges srcss2 dstss2 sig) e c i j = Some v2 /\
+    Permutation v1 v2 /\ cval v1 = cval v2.
+Proof. exact multi_pafs_order_irrelevant. Qed.
+Print Assumptions c05_multi_pafs_order_irrelevant.
+
+Theorem c05_padding_instance_contributes_nothing : forall fl sig e c x y sd,
+  @nth kp e (fst sd) None = None \/ @nth kp e (snd sd) None = None -> contrib fl sig e c x y sd = None.
+Proof. exact padding_contributes_nothing. Qed.
+Print Assumptions c05_padding_instance_contributes_nothing.
+
 Theorem c05_only_sample_0_is_used : forall fl fb smp rest H W sig s edges,
   generate_pafs fl fb (smp :: rest) H W sig s edges = generate_pafs fl fb [smp] H W sig s edges.
 Proof. exact only_sample_0. Qed.
